@@ -412,7 +412,8 @@ pub fn check_units(units: &[Unit]) -> Result<Vec<Verdict>, String> {
                 continue;
             }
         }
-        verdicts.push(bad(&classify(&want, &got), format!("bytes [{}] decode to `{}`", hex(&u.bytes), raw_got)));
+        let shown = if u.rel { format!("{raw_got}` = `{got}") } else { raw_got.clone() };
+        verdicts.push(bad(&classify(&want, &got), format!("bytes [{}] decode to `{}`", hex(&u.bytes), shown)));
     }
     Ok(verdicts)
 }
